@@ -147,4 +147,63 @@ theorem step_eq : Code4.step = Model.V4.r 1 10 := rfl
     metric's own table, in the model's order -/
 theorem distMetrics_eq : Code4.distMetrics = Model.V4.distMetrics := rfl
 
+
+namespace Aux
+
+theorem fmt2 (a b : Str) : Py.format c!"{0}:{1}" [a, b] = a ++ ':' :: b := by
+  simp [Py.format, Py.formatAux, Py.fmtField]
+
+def cleanBody (m : List (Str × Str)) (nd : Str) : List Str → Str → Option (List Str) :=
+  fun (st : (List Str)) (metric : Str) => (do
+      let vector := st
+      let vector ← (if (Py.contains metric m = true) then (do
+          let t1 ← Py.getitem metric m
+          let value_ : Str := t1
+          let vector ← (if (¬ (value_ = nd)) then (do
+              let vector : List Str := vector ++ [(Py.format c!"{0}:{1}" [metric, value_])]
+              pure vector) else (do
+              pure vector))
+          pure vector) else (do
+          pure vector))
+      pure vector)
+
+def cleanF (m : List (Str × Str)) (nd : Str) : Str → Option Str :=
+  fun k =>
+    match lookup k m with
+    | some v => if v ≠ nd then some (k ++ ':' :: v) else none
+    | none => none
+
+theorem clean_step (m : List (Str × Str)) (nd : Str) (k : Str) (acc : List Str) :
+    cleanBody m nd acc k = some (acc ++ (cleanF m nd k).toList) := by
+  unfold cleanBody cleanF
+  simp only [Py.contains, hasKey, Py.getitem]
+  cases h : lookup k m with
+  | none => simp
+  | some v =>
+    by_cases hv : v = nd
+    · simp [hv]
+    · simp [hv, fmt2]
+
+theorem clean_fold (m : List (Str × Str)) (nd : Str) (l : List Str) (acc : List Str) :
+    List.foldlM (cleanBody m nd) acc l = some (acc ++ l.filterMap (cleanF m nd)) := by
+  induction l generalizing acc with
+  | nil => simp [List.foldlM]
+  | cons k l ih =>
+    rw [List.foldlM_cons, clean_step]
+    simp only [Option.bind_eq_bind, Option.bind_some, ih, List.filterMap_cons]
+    cases cleanF m nd k <;> simp
+
+end Aux
+
+/-- `clean_vector(output_prefix)` -/
+theorem clean_vector_eq (self : Code4.Self) (p : Bool) :
+    Code4.clean_vector self p = some (Model.V4.cleanOf self.original_metrics p) := by
+  have h := Aux.clean_fold self.original_metrics c!"X" (keys Gen.V4.abbrs) []
+  simp only [List.nil_append] at h
+  unfold Code4.clean_vector Model.V4.cleanOf
+  show (List.foldlM (Aux.cleanBody self.original_metrics c!"X") [] (keys Gen.V4.abbrs) >>=
+    fun v => _) = _
+  rw [h]
+  cases p <;> rfl
+
 end Cvss.Props.CodeTie4
